@@ -44,6 +44,7 @@ namespace sched
     // to be called from spawned threads:
     void yield();                                                // explicit scheduling point
     void wait_until(std::function<bool()> pred, const char *what); // blocking predicate (no spinning)
+    void wait_idle();                                            // enabled only when no other thread can run (quiescence)
     int self();                                                  // thread id, -1 = not a scheduled thread
     void note(const char *what);                                 // appended to the trace
     // model knowledge the harness may want
